@@ -60,7 +60,10 @@ def run(ctx: Ctx):
     def on_reject(ast, src, args, r):
         if r.status == "rejected" and len(rejected) < (10 if quick else 60):
             rejected.append((src, args, r.exc_type))
-    work.generated_pool(rng, 6 if quick else 40, profile={"strict_after_open": 0.6, "depth": 3}, on_reject=on_reject)
+    for _ in range(12):     # (the share of rejected programs varies with the seed: generate until there are enough)
+        work.generated_pool(rng, 6 if quick else 40, profile={"strict_after_open": 0.6, "depth": 3}, on_reject=on_reject)
+        if len(rejected) >= (10 if quick else 60):
+            break
     others = [(src, args) for _, src, args, _ in items]
 
     # plan worker processes: each process = (hashseed, preamble, job list)
